@@ -207,7 +207,7 @@ pub fn supervise(args: &[String], prop: &str) -> i32 {
     let _ = std::fs::remove_dir_all(&jdir);
     let _ = std::fs::create_dir_all(&jdir);
     let thorough = args.iter().any(|a| a == "thorough") || std::env::var("VERIF_TIER").map(|t| t == "thorough").unwrap_or(false);
-    let stuck = std::env::var("PV_STUCK_SECS").ok().and_then(|s| s.parse().ok()).unwrap_or(if thorough { 90 } else { 45 });
+    let stuck = std::env::var("PV_STUCK_SECS").ok().and_then(|s| s.parse().ok()).unwrap_or(if thorough { 180 } else { 90 });
     let overall = std::env::var("PV_OVERALL_SECS").ok().and_then(|s| s.parse().ok()).unwrap_or(if thorough { 4 * 3600 } else { 1800 });
     let out = run_child(args, Some(&jdir), stuck, overall);
     let code = if let Some(c) = out.code {
